@@ -31,7 +31,8 @@ RULE = (
 )
 BOUNDS = {
     "quick": "72 states; 5 vectors x 3 tags; orbit2frame on 24 states x 3 orientations x {fixed, propagated} x 2 dates, plus all ordered pairs of "
-    "registrations under ONE frame name (4 orbits x 3 orientations, with / without a registry reset in between: 264 histories); dkep2dv: 4 orbits x 245 increments "
+    "registrations under ONE frame name (4 orbits x 3 orientations, with / without a registry reset in between: 264 histories), plus references given as "
+    "{StateVector, Kepler Orbit} x forms {cartesian, keplerian, spherical, keplerian_mean} x frames {EME2000, TEME} x 3 orientations on 3 states (6 in thorough); dkep2dv: 4 orbits x 245 increments "
     "(+ 5 positions for pure da); KeplerNum: {euler, rk4, dopri54} x 60 s x 24 steps, 3 date kinds x 3 tags x 4 vectors single impulses, all ordered pairs and "
     "a set of triples of a 6-maneuver alphabet; continuous burns: 5 windows x 3 tags x 3 methods",
     "thorough": "as quick with steps {15, 60, 120} s, rkf54 added, all ordered triples of the 6-maneuver alphabet, orbit2frame on all 72 states and all registration pairs and triples under one name (6 072 histories), dkep2dv on 6 orbits",
@@ -256,16 +257,17 @@ def _register(ref, orient, moving):
     return orbit2frame(FRAME_NAME, ref, orient)
 
 
-def _verify_frame(t, case, sid, orient, moving, ref, suffix=""):
+def _verify_frame(t, case, sid, orient, moving, ref, suffix="", dts=(0.0, 420.0)):
     """Origin, axes (definition triad of the CURRENT orbit) and round trip of the frame currently registered as FRAME_NAME."""
     from datetime import timedelta
     from beyond.orbits import StateVector
 
-    for dt in (0.0, 420.0):
+    for dt in dts:
         date = _G["epoch"] + timedelta(seconds=dt)
         try:
             cur = ref.propagate(date) if moving else ref
-            yc = A(cur.copy(form="cartesian"))
+            # the attached orbit as the library itself expresses it in the parent frame (form / frame changes are C01's / C02's subject)
+            yc = A(cur.copy(form="cartesian", frame="EME2000"))
             if not np.all(np.isfinite(yc)):
                 t.exclude("the Kepler propagator returns a non-finite state for this reference orbit (C01/C05's subject)")
                 continue
@@ -280,12 +282,15 @@ def _verify_frame(t, case, sid, orient, moving, ref, suffix=""):
             t.fail(f"orbit2frame/{orient}/convert-raises-{type(e).__name__}{suffix}", "the attached frame converts to and from its parent", dict(case, dt=dt), "state", repr(e)[:200])
             continue
         tol_r = 1e-6
-        R = triad(orient, yc)
         e0 = float(np.linalg.norm(o_in[:3]))
         e0v = float(np.linalg.norm(o_in[3:]))
         if not t.margin("F: orbit at the origin of its frame [m] / 1e-6", max(e0, e0v / 1e-3), tol_r):
             t.fail(f"orbit2frame/{orient}/origin{suffix}", "the frame places its orbit at the origin", dict(case, dt=dt), [0.0] * 6, o_in.tolist())
-        want = R @ (probe_y[:3] - yc[:3])
+        if orient is None and cur.frame.name != "EME2000":
+            # orientation None keeps the axes of the reference orbit's own frame
+            want = A(probe.copy(frame=cur.frame))[:3] - A(cur.copy(form="cartesian"))[:3]
+        else:
+            want = triad(orient, yc) @ (probe_y[:3] - yc[:3])
         e1 = float(np.linalg.norm(A(p_in)[:3] - want))
         if not t.margin("F: probe position in the frame vs definition [m] / 1e-6", e1, tol_r):
             t.fail(f"orbit2frame/{orient}/axes{suffix}", "positions in the attached frame are expressed on the axes of its definition (triad of the attached orbit)", dict(case, dt=dt),
@@ -314,6 +319,59 @@ def check_frame(case, t):
             t.fail(f"orbit2frame/{orient}/raises-{type(e).__name__}", "a frame can be attached to any orbit", case, "frame", repr(e)[:200])
             return
         _verify_frame(t, case, sid, orient, moving, ref)
+    finally:
+        world.restore(_G["snap"])
+
+
+# references given in other forms / frames: the frame is attached to "an orbit", whatever its representation
+FR_STATES = ["r0g0a0", "r2g1a2", "r6g0a1", "r5g1a0", "r3g0a2", "r7g1a1"]
+FR_FORMS = ["cartesian", "keplerian", "spherical", "keplerian_mean"]
+FR_FRAMES = ["EME2000", "TEME"]
+
+
+def check_frame_reference(case, t):
+    from mc import world
+    from beyond.orbits import Orbit, StateVector
+
+    sid, orient, moving, form, frame = case["state"], case["orient"], case["moving"], case["form"], case["frame"]
+    y = dict(states())[sid]
+    world.restore(_G["snap"])
+    try:
+        key = ("FR", sid, orient, moving, form, frame)
+        base = StateVector(y, _G["epoch"], "cartesian", "EME2000")
+        try:
+            given = base.copy(frame=frame, form=form)
+            back = A(given.copy(form="cartesian", frame="EME2000"))
+        except LIBERR:
+            t.exclude("reference state not expressible in this form / frame (C01 / C02's subject)")
+            return
+        if not np.all(np.isfinite(A(given))) or not np.all(np.isfinite(back)) or float(np.linalg.norm(back - y)) > 1e-7 * float(np.linalg.norm(y)):
+            t.exclude("this form of the reference state is singular / does not round-trip (element conversions are C01's subject)")
+            return
+        t.ev(key)
+        t.state(key)
+        if moving:
+            ref = Orbit(A(given), _G["epoch"], form, frame, "Kepler")
+        else:
+            ref = given
+        if form != "cartesian" and not moving:
+            suffix = "/statevector-reference-not-cartesian"
+        elif form != "cartesian":
+            suffix = "/orbit-reference-not-cartesian"
+        elif frame != "EME2000":
+            suffix = "/reference-in-other-frame"
+        else:
+            suffix = ""
+        try:
+            _register(ref, orient, moving)
+            t.trans()
+        except LIBERR as e:
+            t.fail(f"orbit2frame/{orient}/raises-{type(e).__name__}{suffix}", "a frame can be attached to any orbit", case, "frame", repr(e)[:200])
+            return
+        # a fixed state given in a frame that moves against the parent only designates a point at its own date
+        dts = (0.0, 420.0) if (moving or frame == "EME2000") else (0.0,)
+        _verify_frame(t, case, sid, orient, moving, ref, suffix, dts)
+        t.outcome(("FR", form, frame, moving))
     finally:
         world.restore(_G["snap"])
 
@@ -703,6 +761,10 @@ def units(tier, seed):
     fc = [dict(part="F", state=s, orient=o, moving=m) for s in fsts for o in TAGS for m in (False, True)]
     for i in range(0, len(fc), 24):
         u.append((cfg, dict(part="F", cases=fc[i : i + 24])))
+    frs = FR_STATES if tier == "thorough" else FR_STATES[:3]
+    rc = [dict(part="FR", state=st, orient=o, moving=m, form=f, frame=fr) for st in frs for o in TAGS for m in (False, True) for f in FR_FORMS for fr in FR_FRAMES]
+    for i in range(0, len(rc), 36):
+        u.append((cfg, dict(part="FR", cases=rc[i : i + 36])))
     # registration histories under one name: all ordered pairs (quick) / triples (thorough) of the 12-element alphabet with a change at
     # every step, each later registration with and without a registry reset before it
     alpha = fh_alphabet()
@@ -765,6 +827,8 @@ def check_case(case, t):
         check_frame(case, t)
     elif part == "FH":
         check_frame_history(case, t)
+    elif part == "FR":
+        check_frame_reference(case, t)
     elif part == "K":
         check_dkep(case, t)
     elif part == "N":
